@@ -46,6 +46,7 @@ type dbgBind struct {
 	v      ssa.Value
 	isAddr bool
 	idx    int
+	obj    types.Object
 }
 
 type frame struct {
@@ -73,6 +74,7 @@ type frame struct {
 	lockEv   []string
 	callLog  map[string][][]Val // arguments of the calls made so far, by callee name
 	ranges   map[*ssa.Range]*rangeInfo
+	cellOf   map[types.Object]ssa.Value // variables living in a cell (address taken / captured)
 }
 
 type deferred struct {
@@ -201,7 +203,17 @@ func (fr *frame) collectDebug() {
 				}
 				if obj := d.Object(); obj != nil {
 					if _, isVar := obj.(*types.Var); isVar {
-						fr.dbg[b] = append(fr.dbg[b], dbgBind{name: obj.Name(), v: d.X, isAddr: d.IsAddr, idx: i})
+						fr.dbg[b] = append(fr.dbg[b], dbgBind{name: obj.Name(), v: d.X, isAddr: d.IsAddr, idx: i, obj: obj})
+						if d.IsAddr {
+							if fr.cellOf == nil {
+								fr.cellOf = map[types.Object]ssa.Value{}
+							}
+							if _, isAlloc := d.X.(*ssa.Alloc); isAlloc {
+								fr.cellOf[obj] = d.X
+							} else if _, isFree := d.X.(*ssa.FreeVar); isFree {
+								fr.cellOf[obj] = d.X
+							}
+						}
 					}
 				}
 			}
@@ -419,12 +431,23 @@ func (fr *frame) enterLoop(li *loopInfo, b *ssa.BasicBlock) {
 	if li.spec != nil {
 		for k, inv := range li.spec.Invariants {
 			env := fr.specEnvAt(b, fr.st, nil)
-			t, err := env.boolExpr(inv.E)
-			if err != nil {
+			if _, err := env.boolExpr(inv.E); err != nil {
 				fr.u.bindingError(fmt.Sprintf("loop %d invariant %d: %v", li.ord, k+1, err))
 				continue
 			}
-			u.assert("(=> " + fr.cur + " " + t + ")")
+			// conjuncts are assumed one by one; purely quantified conjuncts are marked so that the
+			// instance-only variant of an obligation can leave them out (their instances stay)
+			for _, cj := range splitConj(inv.E) {
+				t, err := env.boolExpr(cj)
+				if err != nil {
+					continue
+				}
+				line := "(assert (=> " + fr.cur + " " + t + "))"
+				u.emit(line)
+				if isQuantConj(cj) {
+					u.quantHypLines[len(u.lines)-1] = true
+				}
+			}
 			env.recordHyps(inv.E, fr.cur)
 		}
 	} else if fr.top {
@@ -480,6 +503,7 @@ func (fr *frame) finishLoop(li *loopInfo) {
 				}
 				o := u.addObl(fmt.Sprintf("loop%d.inv.pres", li.ord), "invariant preserved by the loop body: "+inv.Src, fr.pos(firstPos(b)), "true", g)
 				o.Extra = extra
+				o.Parts = goals
 			}
 		}
 	}
@@ -602,4 +626,24 @@ func (fr *frame) loopFrameObligations(li *loopInfo) {
 		}
 		u.addObl(fmt.Sprintf("loop%d.frame.pres", li.ord), "implicit frame invariant of the loop is preserved: "+k, fr.pos(firstPos(li.header)), "true", "(and true "+strings.Join(gs, " ")+")")
 	}
+}
+
+func splitConj(x Expr) []Expr {
+	if b, ok := x.(*EBinary); ok && b.Op == "&&" {
+		return append(splitConj(b.X), splitConj(b.Y)...)
+	}
+	return []Expr{x}
+}
+
+// isQuantConj: a (guarded) bounded universal, fully represented by its recorded instances
+func isQuantConj(x Expr) bool {
+	switch n := x.(type) {
+	case *EBinary:
+		if n.Op == "==>" {
+			return isQuantConj(n.Y)
+		}
+	case *EQuant:
+		return n.Forall
+	}
+	return false
 }
